@@ -78,6 +78,7 @@ type FieldSpec struct {
 	Go   string    `json:"go"`
 	Tags []TagSpec `json:"tags"`
 	Name string    `json:"name"` // observations render the field under this name (the generator's reading of the match name)
+	Anon bool      `json:"anon"` // an embedded (anonymous) struct field
 	T    TypeSpec  `json:"t"`
 }
 
@@ -326,7 +327,7 @@ func goType(t *TypeSpec) reflect.Type {
 	case "struct":
 		fs := make([]reflect.StructField, 0, len(t.F))
 		for _, f := range t.F {
-			sf := reflect.StructField{Name: f.Go, Type: goType(&f.T)}
+			sf := reflect.StructField{Name: f.Go, Type: goType(&f.T), Anonymous: f.Anon}
 			parts := make([]string, 0, len(f.Tags))
 			for _, tg := range f.Tags {
 				parts = append(parts, fmt.Sprintf(`%s:%q`, tg.K, tg.V))
